@@ -528,7 +528,18 @@ func withPolicies(tier string, jobs []reg.Job, cacheOK func(reg.Job) bool) []reg
 			up = 1 // with the state cache one more deviation costs about what the plain search costs at the base bound
 		}
 		if tier == "thorough" {
-			out = append(out, clone(0, bound+up, j.Shards), clone(1, bound, 16), clone(2, bound+up, 8), clone(3, bound+up, 8), clone(4, bound, 8))
+			// internal deadlines keep the tier's worst case bounded: a job that does not finish reports the bound it completed
+			base := clone(0, bound+up, j.Shards)
+			if base.BudgetS > 420 {
+				base.BudgetS = 420
+			}
+			out = append(out, base)
+			for _, c := range []reg.Job{clone(1, bound, 8), clone(2, bound+up, 8), clone(3, bound+up, 8), clone(4, bound, 8)} {
+				if c.BudgetS > 120 {
+					c.BudgetS = 120
+				}
+				out = append(out, c)
+			}
 		} else {
 			pb := bound
 			if !ok && pb > 2 {
